@@ -269,7 +269,9 @@ func (d *Decoder) Write(p []byte) (n int, err error) {
 			// reading code earlier should already catch
 			// overlong things and return ErrStringLength,
 			// but keep this as a last resort.
-			const varIntOverhead = 8 // conservative
+			// A pending literal is a type octet and two strings, each
+			// with a length integer of up to 10 octets.
+			const varIntOverhead = 11 // conservative
 			if d.maxStrLen != 0 && int64(len(d.buf)) > 2*(int64(d.maxStrLen)+varIntOverhead) {
 				return 0, ErrStringLength
 			}
